@@ -25,13 +25,18 @@ func rolesOf(p *Program) map[string][]string {
 		seen[role+"/"+name] = true
 		roles[role] = append(roles[role], name)
 	}
+	// "local" / "loopvar": defined in a block at top level (emitted under their own names); "flocal" / "floopvar":
+	// defined inside a function body (emitted with the function's prefix)
+	inFn := false
 	var walk func(b []Stmt, inFunc bool)
 	walk = func(b []Stmt, inFunc bool) {
 		for _, s := range b {
 			switch x := s.(type) {
 			case VarDecl:
 				for _, n := range x.Names {
-					if inFunc {
+					if inFn {
+						add("flocal", n)
+					} else if inFunc {
 						add("local", n)
 					} else {
 						add("global", n)
@@ -42,7 +47,9 @@ func rolesOf(p *Program) map[string][]string {
 				for _, pa := range x.Params {
 					add("param", pa.Name)
 				}
+				inFn = true
 				walk(x.Body, true)
+				inFn = false
 			case If:
 				for _, br := range x.Branches {
 					walk(br.Body, true)
@@ -53,17 +60,46 @@ func rolesOf(p *Program) map[string][]string {
 					walk(c.Body, true)
 				}
 			case For:
+				lr := "loopvar"
+				if inFn {
+					lr = "floopvar"
+				}
 				if d, ok := x.Init.(VarDecl); ok {
 					for _, n := range d.Names {
-						add("loopvar", n)
+						add(lr, n)
 					}
 				}
-				add("loopvar", x.RangeIdx)
-				add("loopvar", x.RangeVal)
+				add(lr, x.RangeIdx)
+				add(lr, x.RangeVal)
 				walk(x.Body, true)
 			}
 		}
 	}
+	defer func() {
+		// a name that also stands at top level (as a global, a block local or a loop variable there) is not a pure
+		// function-level name: renaming it touches the top-level occurrence too
+		topLevel := map[string]bool{}
+		for _, r := range []string{"global", "local", "loopvar"} {
+			for _, n := range roles[r] {
+				topLevel[n] = true
+			}
+		}
+		for _, r := range []string{"flocal", "floopvar"} {
+			weak := map[string]string{"flocal": "local", "floopvar": "loopvar"}[r]
+			kept := []string{}
+			for _, n := range roles[r] {
+				if topLevel[n] {
+					if !seen[weak+"/"+n] {
+						seen[weak+"/"+n] = true
+						roles[weak] = append(roles[weak], n)
+					}
+					continue
+				}
+				kept = append(kept, n)
+			}
+			roles[r] = kept
+		}
+	}()
 	// top-level blocks (if/for bodies) define block-local variables: treat them like locals
 	for _, s := range p.Files[0].Stmts {
 		switch x := s.(type) {
@@ -489,7 +525,7 @@ func checkC10(c *Check) {
 	}
 	jobs := []job{}
 	for bi, b := range bases {
-		for _, role := range []string{"global", "local", "param", "func", "loopvar", "lib-global", "lib-local", "lib-func"} {
+		for _, role := range []string{"global", "local", "flocal", "param", "func", "loopvar", "floopvar", "lib-global", "lib-local", "lib-func"} {
 			cands := b.roles[role]
 			if len(cands) == 0 {
 				continue
